@@ -79,8 +79,13 @@ package signer
 
 //@ pure func sanitized(d ocispec.Descriptor) ocispec.Descriptor = ocispec.Descriptor{MediaType: d.MediaType, Digest: d.Digest, Size: d.Size, Annotations: d.Annotations}
 
+// describedFor(d, ks): provenance tag — d is what the caller's generator returned when getDescriptor called it with the
+// digest algorithm bound to key spec ks
+//@ ghost func describedFor(d ocispec.Descriptor, ks signature.KeySpec) bool
+
 //@ func getDescriptor
 //@ props C07
+//@ ensures-ghost result1 == nil ==> describedFor(result, ks)
 //@ requires genDesc != nil
 //@ at call dynamic: assert[C07.blob-hash] arg0 == digestOfHash(hashOfAlg(algOfKeySpec(ks))) && arg0 != ""
 //@ ensures[C07.blob-hash] hashOfAlg(algOfKeySpec(ks)) == 0 ==> result1 != nil
@@ -99,15 +104,15 @@ package signer
 //@ props C07
 //@ requires s != nil && ctx != nil && genDesc != nil && s.signer != nil
 //@ at call getDescriptor: assert[C07.blob-keyspec] arg0 == signerKeySpec(s.signer) && arg1 == genDesc
-//@ at call (*GenericSigner).Sign: assert[C07.blob-signs-generated] arg1 == desc && arg2 == opts
+//@ at call (*GenericSigner).Sign: assert[C07.blob-signs-generated] arg1 == desc && arg2 == opts && describedFor(arg1, signerKeySpec(s.signer))
 
 //@ func (*PluginSigner).SignBlob
 //@ props C07
 //@ modifies any
 //@ requires s != nil && s.plugin != nil && descGenFunc != nil && ctx != nil && opts.ExpiryDuration >= 0
 //@ at call getDescriptor: assert[C07.blob-keyspec] arg0 == ks && arg1 == descGenFunc
-//@ at call (*PluginSigner).generateSignature: assert[C07.blob-signs-generated] arg1 == desc && arg3 == ks
-//@ at call (*PluginSigner).generateSignatureEnvelope: assert[C07.blob-signs-generated] arg1 == desc
+//@ at call (*PluginSigner).generateSignature: assert[C07.blob-signs-generated] arg1 == desc && arg3 == ks && describedFor(arg1, ks)
+//@ at call (*PluginSigner).generateSignatureEnvelope: assert[C07.blob-signs-generated] arg1 == desc && describedFor(arg1, ks)
 
 // ---- C18: the signature-generator path and the two public signing entry points of the plugin signer ----
 
